@@ -61,6 +61,15 @@ static void auto_set_operand(struct instr *instrc, int r) {
 }
 
 void encode_offset(struct instr *instrc) {
+  // movzx selects its opcode (0f b6 / 0f b7) by the width of the source only
+  if (NAME(instrc->key, movzx)) {
+    unsigned int src = instrc->opd[1].reg & MODE_MASK;
+    instrc->op_offset =
+        (src == reg16 || src == ext16 || instrc->keyword.is_word) ? 1 : 0;
+    // the keyword sized the source: it must not add a 0x66 prefix
+    instrc->keyword.is_word = false;
+    return;
+  }
   // check if register is no prefix
   if ((instrc->opd[0].reg & MODE_MASK) == noext8 ||
       (instrc->opd[1].reg & MODE_MASK) == noext8)
